@@ -148,7 +148,7 @@ class Report:
                 known_lines.append((o["key"], self.known[o["key"]].get("what", o["text"])))
             else:
                 viol.append(o)
-        ev_dir = os.path.join(VERIF, "evidence")
+        ev_dir = os.environ.get("VERIF_EVIDENCE_DIR") or os.path.join(VERIF, "evidence")  # seeded-change runs write elsewhere
         os.makedirs(ev_dir, exist_ok=True)
         vdir = os.path.join(ev_dir, "violations", self.pid)
         subprocess.run(["rm", "-rf", vdir])
